@@ -3,7 +3,7 @@
 import random
 
 
-def gen_workload(rng, max_jobs=6, max_tokens=2, resubmit=True, markers=True, fail_p=0.2):
+def gen_workload(rng, max_jobs=6, max_tokens=2, resubmit=True, markers=True, fail_p=0.2, marker_p=0.08, resubmit_p=0.15):
     nj = rng.randint(1, max_jobs)
     nt = rng.randint(0, max_tokens)
     totals = [rng.randint(1, 4) for _ in range(nt)]
@@ -13,9 +13,9 @@ def gen_workload(rng, max_jobs=6, max_tokens=2, resubmit=True, markers=True, fai
         deps += [["t", t, rng.randint(1, totals[t])] for t in range(nt) if rng.random() < 0.6]
         rng.shuffle(deps)
         js = {"ident": j, "deps": deps, "code": 0 if rng.random() > fail_p else rng.choice([1, 2, 137]), "marker": False}
-        if markers and rng.random() < 0.08:
+        if markers and rng.random() < marker_p:
             js["marker"] = True
-        if resubmit and j > 0 and rng.random() < 0.15:
+        if resubmit and j > 0 and rng.random() < resubmit_p:
             # same configuration as an earlier job (duplicate submission / re-submission after failure)
             i = rng.randrange(j)
             js["ident"] = jobs[i]["ident"]
